@@ -2,6 +2,7 @@
   C07 — A client reuses a cached session only for the same server, command and tag.
 -/
 import CedarProofs.CacheLemmas
+import CedarProofs.RouteInv
 
 namespace Cedar.C07
 open Cedar Cedar.SC
@@ -191,5 +192,70 @@ theorem explicit_id_plants_no_route (c : Cache) (now : Nat) (sid : Str) (answer 
         | none => simp
         | some _ => simp only []; intro h; exact (List.mem_filter.mp h).1
       | other rc => simp
+
+
+/-- **routes_lead_home**: after ANY history of client operations — full handshakes in which the
+    server chooses the session identifier (possibly one the cache already knows), resumption attempts
+    by route or by explicit id with any server answer, invalidations, expiry sweeps, lookups — every
+    command route leads only to sessions that were established under the route's own tag, with the
+    route's own server, and for which the server declared the route's command valid. -/
+theorem routes_lead_home (ops : List ClientOp) : Inv (runOps {} ops) :=
+  inv_runOps ops {} inv_empty
+
+/-- **resume_only_same_triple** (the property's first sentence, at full strength): in any reachable
+    cache, a client that resumes a cached session for (tag, server, command) resumes a session that
+    was established under that same tag, with that same server, and for which the server declared
+    that command valid — and it is that session's key and identity the handshake returns. -/
+theorem resume_only_same_triple (ops : List ClientOp) (now : Nat) (tag addr cmd : Str) (ans : ServerAnswer)
+    (ra : Bool) (c' : Cache) (sid : Str) (key : Option Nat) (user : String) (auth : Bool)
+    (h : clientTry (runOps {} ops) now tag addr cmd ans ra = (c', .resumed sid key user auth)) :
+    ∃ e, (sid, e) ∈ (runOps {} ops).sessions ∧ e.tag = tag ∧ e.addr = addr ∧ cmd ∈ e.validCommands ∧
+      key = e.key ∧ user = e.user ∧ auth = e.authenticated := by
+  have hinv := routes_lead_home ops
+  generalize runOps {} ops = c at h hinv
+  unfold clientTry at h
+  by_cases ha : addr = []
+  · simp [ha] at h
+  · rw [if_neg ha] at h
+    cases hl : c.lookupByCommand now tag addr cmd with
+    | none => simp [hl] at h
+    | some e =>
+      simp only [hl] at h
+      obtain ⟨sid', hs, hg, _⟩ := lookupByCommand_id c now tag addr cmd e hl
+      have hmem := get_mem c sid' e hg
+      have hid : e.id = sid' := hinv.1 sid' e hmem
+      have hroute := hinv.2 tag addr cmd sid' e (lookup_mem _ _ _ hs) hmem
+      split at h
+      · simp at h
+      · cases ans with
+        | authorized =>
+          simp only [Prod.mk.injEq, ClientStep.resumed.injEq] at h
+          obtain ⟨_, h1, h2, h3, h4⟩ := h
+          exact ⟨e, by rw [← h1, hid]; exact hmem, hroute.1, hroute.2.1, hroute.2.2, h2.symm, h3.symm, h4.symm⟩
+        | sidNotFound => simp at h
+        | broken => simp at h
+        | other rc => simp at h
+
+/-- **legacy_store_breaks_routes**: what the code did before fix D20, as a concrete history. The
+    client holds session "s" for (tag A, srvA); a second server, contacted under (tag B, srvB), hands
+    out the same identifier; connecting to srvA under tag A the client then resumes the session of
+    srvB — its key 99, its user. (Found by asking for the invariant above; confirmed on the real
+    cache by the `clientcache` engine: F-C07-sid-collision.) -/
+theorem legacy_store_breaks_routes :
+    let eA : Entry := { id := "s".toList, addr := [], key := some 3, crypto := "AES", user := "alice", authenticated := true,
+                        validCommands := ["60007".toList], expiration := none, lease := 0, tag := [] }
+    let eB : Entry := { eA with key := some 99, user := "mallory" }
+    let c := clientStoreLegacy (clientStoreLegacy {} "A".toList "srvA".toList eA) "B".toList "srvB".toList eB
+    (clientTry c 0 "A".toList "srvA".toList "60007".toList .authorized).2 = .resumed "s".toList (some 99) "mallory" true := by
+  decide
+
+/-- the same history on the repaired code: the route of (A, srvA) is gone, a full handshake follows -/
+example :
+    let eA : Entry := { id := "s".toList, addr := [], key := some 3, crypto := "AES", user := "alice", authenticated := true,
+                        validCommands := ["60007".toList], expiration := none, lease := 0, tag := [] }
+    let eB : Entry := { eA with key := some 99, user := "mallory" }
+    let c := clientStore (clientStore {} "A".toList "srvA".toList eA) "B".toList "srvB".toList eB
+    (clientTry c 0 "A".toList "srvA".toList "60007".toList .authorized).2 = .full := by
+  decide
 
 end Cedar.C07
